@@ -71,7 +71,7 @@ def main():
         else:
             axioms = {n: None for n in lean.theorems_of(prop)}
             m = [ln for ln in log_props.splitlines() if "error" in ln][:6]
-            broken.append({"kind": "build", "target": "Cinco.Props." + prop, "log": m})
+            broken.append({"kind": "build", "target": "Cinco.Props." + prop, "log": m, "theorems": lean.theorems_at(log_props)})
         forb = lean.forbidden_tokens()
         discharged = 0
         for name, ax in axioms.items():
